@@ -27,7 +27,7 @@ import copy
 import inspect
 import re
 
-from common import Sym, dumps, loads, opt, impl, run_model, unhx
+from common import Sym, dumps, loads, opt, impl, run_model, unhx, exc_kind
 import astwire
 import irwire
 import fam_merge
@@ -51,7 +51,7 @@ TRUSTED = [
     "oracle: free names in generated definitions are executed as stub objects whose repr reconstructs their source",
     "oracle: what a ReST docstring says when a :type field stands directly before the :param/:cvar entry it belongs to is parse.docstring's reading of the same fields in the usual order (canon_field_order)",
     "oracle (history stratum): 'parsed alone' means parsed in a worker forked from a process that has only imported doctrans",
-    "oracle (class attributes): Python's view of the attributes of a class is vars(cls) (functions, descriptors, nested classes and dunder names left out) and __annotations__; when the class docstring names attributes that are not the leading attributes of the body in body order, only the order of the attributes it does not name is judged (parse.class_ lists named attributes first: reported finding)",
+    "oracle (class attributes): Python's view of the attributes of a class is vars(cls) (functions, descriptors, nested classes and dunder names left out) and __annotations__; every failed clause of a classattrs point (order / value / raises) is classified on its own by coq/model/C07Spec2.v (finding_class_C07_r on PtClassAttrs), which runs the model of the class body (ParseAst.parse_class, tied to parse.class_ by the parseast family) on the point: a point is a known finding only when every failed clause is",
 ]
 NONESTR = "```(None)```"
 NONE_LIKE = (None, "None", NONESTR)
@@ -229,10 +229,17 @@ def _py_attrs(cls):
     return vs, list(vars(cls).get("__annotations__", {}))
 
 
-def check_class_attrs(tree, cls, ir_params, doc_params, init_names=None):
-    """the property for the attributes of a class, judged against vars(cls) / __annotations__.  ir_params: what was parsed;
-    doc_params: what the class docstring says; init_names: names of the parameters of the merged __init__ (None: not merged;
-    for those names value, type and prose are judged by check_params)."""
+def class_attrs_failed_clauses(tree, cls, ir_params, doc_params, init_names=None):
+    """the property for the attributes of a class, judged against vars(cls) / __annotations__: EVERY failed clause, as
+    [{clause, what, entry, got, order}] (clause: "order" - got / order are the attributes as parsed / as Python has them -,
+    "value" - entry is the attribute -, "other").  ir_params: what was parsed; doc_params: what the class docstring says;
+    init_names: names of the parameters of the merged __init__ (None: not merged; for those names value, type and prose
+    are judged by check_params)."""
+    out = []
+
+    def fail(clause, what, entry=None, got=None, order=None):
+        out.append({"clause": clause, "what": what, "entry": entry, "got": got or [], "order": order or []})
+
     vs, anns = _py_attrs(cls)
     # (a name first annotated without a value and bound later has no single place in Python's view: not ordered here)
     late = {e.target.id for e in tree.body if isinstance(e, ast.AnnAssign) and e.value is None and isinstance(e.target, ast.Name)}
@@ -243,19 +250,13 @@ def check_class_attrs(tree, cls, ir_params, doc_params, init_names=None):
     doc_params = doc_params or {}
     for n in valued + ann_only:
         if n not in ir_params:
-            return False, "attribute %s is missing from the parsed class" % n
-    # order: Python's.  (When the class docstring names attributes that are NOT the leading attributes of the body in
-    # body order, parse.class_ lists the named ones first - reported as a finding; the order of the others is still judged.)
+            fail("other", "attribute %s is missing from the parsed class" % n, n)
+            return out
+    # order: Python's, whatever the class docstring names
     for label, order in (("vars(cls)", valued), ("__annotations__ (attributes without a value)", ann_only)):
         got = [n for n in ir_params if n in set(order)]
-        named = [n for n in doc_params if n in set(order)]
-        if named == order[:len(named)]:
-            if got != order:
-                return False, "order: attributes appear as %r, %s has %r" % (got, label, order)
-        else:
-            sub, want = [n for n in got if n not in doc_params], [n for n in order if n not in doc_params]
-            if sub != want:
-                return False, "order: attributes the docstring does not name appear as %r, %s has %r" % (sub, label, want)
+        if got != order:
+            fail("order", "order: attributes appear as %r, %s has %r" % (got, label, order), None, got, order)
     ann_src = {}
     for e in tree.body:
         if isinstance(e, ast.AnnAssign) and isinstance(e.target, ast.Name):
@@ -266,26 +267,35 @@ def check_class_attrs(tree, cls, ir_params, doc_params, init_names=None):
         rp, dp = ir_params[n], doc_params.get(n) or {}
         if dp.get("doc"):
             if _norm_ws(rp.get("doc")) != _norm_ws(dp["doc"]):
-                return False, "prose of %s: %r, docstring says %r" % (n, rp.get("doc"), dp["doc"])
+                fail("other", "prose of %s: %r, docstring says %r" % (n, rp.get("doc"), dp["doc"]), n)
         elif rp.get("doc"):
-            return False, "prose invented for %s: %r" % (n, rp.get("doc"))
+            fail("other", "prose invented for %s: %r" % (n, rp.get("doc")), n)
         if n in dict(vs):
             if "default" not in rp:
-                return False, "value of attribute %s dropped" % n
-            ok, what = _same_default(rp["default"], dict(vs)[n])
-            if not ok:
-                return False, "%s: %s" % (n, what.replace("signature default", "attribute value"))
+                fail("value", "value of attribute %s dropped" % n, n)
+            else:
+                ok, what = _same_default(rp["default"], dict(vs)[n])
+                if not ok:
+                    fail("value", "%s: %s" % (n, what.replace("signature default", "attribute value")), n)
         elif "default" in rp and not _is_none_like(rp["default"]):
-            return False, "value invented for %s: %r" % (n, rp["default"])
+            fail("value", "value invented for %s: %r" % (n, rp["default"]), n)
         if n in anns and dp.get("typ") is None:
             a = ann_src.get(n)
             if rp.get("typ") not in (a, "Optional[%s]" % a):
-                return False, "annotation of %s (%s) reported as %r" % (n, a, rp.get("typ"))
-    return True, ""
+                fail("other", "annotation of %s (%s) reported as %r" % (n, a, rp.get("typ")), n)
+    return out
 
 
-def class_attrs_hold(case):
-    """C07 for the attributes of one generated class: parse.class_ alone and merged with __init__, against the executed class"""
+def check_class_attrs(tree, cls, ir_params, doc_params, init_names=None):
+    """(holds, every failed clause in one line)"""
+    fs = class_attrs_failed_clauses(tree, cls, ir_params, doc_params, init_names)
+    return (not fs), "; ".join(f["what"] for f in fs)
+
+
+def class_attrs_findings(case):
+    """C07 for the attributes of one generated class: parse.class_ alone and merged with __init__, against the executed
+    class -> (None, why) when the point cannot be judged, else (failures, ""): every failed clause of both readings as
+    {clause, what, entry, got, order, exn, ir (what parse.class_ returned, or None), label}"""
     m = impl()
     tree = ast.parse(case["src"]).body[0]
     try:
@@ -304,6 +314,7 @@ def class_attrs_hold(case):
             init_names |= set(((_doc_reading(ast.get_docstring(init)) or {}).get("params") or {}))
         except Exception:  # noqa  the merge is judged by the points of kind "class"
             init_names = False
+    out = []
     for label, kw, names in (("class", {}, None), ("class merged with __init__", {"merge_inner_function": "__init__"}, init_names)):
         if names is False:
             continue
@@ -312,11 +323,41 @@ def class_attrs_hold(case):
         except Exception as e:  # noqa
             if names is not None:      # the merge itself is judged by the points of kind "class"
                 continue
-            return False, "parse.class_ raises %s" % type(e).__name__
-        ok, what = check_class_attrs(tree, cls, ir["params"], (doc_ir or {}).get("params"), names)
-        if not ok:
-            return False, "%s: %s" % (label, what)
-    return True, ""
+            out.append({"clause": "raises", "what": "class: parse.class_ raises %s" % type(e).__name__, "entry": None,
+                        "got": [], "order": [], "exn": type(e).__name__, "ir": None, "label": label})
+            return out, ""
+        for f in class_attrs_failed_clauses(tree, cls, ir["params"], (doc_ir or {}).get("params"), names):
+            out.append(dict(f, what="%s: %s" % (label, f["what"]), exn=None, ir=ir, label=label))
+    return out, ""
+
+
+def class_attrs_hold(case):
+    """(holds, every failed clause of both readings in one line)"""
+    fs, why = class_attrs_findings(case)
+    if fs is None:
+        return None, why
+    return (not fs), "; ".join(f["what"] for f in fs)
+
+
+def attrs_class_request(case, f):
+    """wire request: the finding class (coq/model/C07Spec2.v) of one failed clause of a classattrs point"""
+    m = impl()
+    tree = ast.parse(case["src"]).body[0]
+    ds = ast.get_docstring(tree)
+    di = None
+    if ds is not None:     # what parse.class_ itself starts from
+        try:
+            di = ("ok", m.parse.docstring(ds.replace(":cvar", ":param"), emit_default_doc=False))
+        except Exception as e:  # noqa
+            di = ("err", exc_kind(e))
+    try:
+        res = opt(f.get("ir"), irwire.enc_ir)
+        dumps(res)
+    except Exception:  # noqa  (a value that does not travel: the classifier is asked without the result)
+        res = Sym("none")
+    return dumps([Sym("c07_attrs_class"), Sym(f["clause"] if f["clause"] in ("order", "value", "raises") else "other"),
+                  opt(di, fam_parseast._enc_outcome_ir), astwire.enc_stmt(tree), opt(f.get("entry")),
+                  list(f.get("got") or []), list(f.get("order") or []), res, opt(f.get("exn"))])
 
 
 def impl_holds(case):
@@ -637,7 +678,7 @@ def gen_points(rng, n, batch=0):
             src, tags = fam_parsesig.gen_class(rng, class_types=0.4, **kw)
             add_class(src, tags + extra)
         elif r < 0.90:
-            for src, tags in fam_parsesig.gen_attr_classes(rng, 1, **kw):
+            for src, tags in fam_parsesig.gen_attr_classes(rng, 1, ann_nonscalar=0.05, tuple_target=0.04, **kw):
                 add_class(src, tags + extra, attrs=True)
         else:
             # a group sharing its docstring text
@@ -650,7 +691,8 @@ def gen_points(rng, n, batch=0):
                 members = [("function", s_, i_["tags"]) for s_, i_ in
                            fam_parsesig.gen_def_variants(rng, k, kind=rng.choice(["self", "self", "cls"]), **kw)]
             else:             # classes: the same class docstring and the same __init__ docstring
-                members = [("class", s_, t_) for s_, t_ in fam_parsesig.gen_attr_classes(rng, k, **kw)]
+                members = [("class", s_, t_) for s_, t_ in
+                           fam_parsesig.gen_attr_classes(rng, k, ann_nonscalar=0.05, tuple_target=0.04, **kw)]
             for j, (kind, src, tags) in enumerate(members):
                 tags = tags + extra + ["shared-doc-group"]
                 if kind == "function":
@@ -667,7 +709,7 @@ def gen_points(rng, n, batch=0):
 def _model_requests(p):
     """wire requests for one point, or None when the model has nothing to say (class level / docstring parser raises)"""
     m = impl()
-    if p["kind"] == "classattrs":      # the class body is not modelled (TRUSTED): every failure there is unclassified
+    if p["kind"] == "classattrs":      # classified per failed clause (attrs_class_request, coq/model/C07Spec2.v)
         return None
     tree = ast.parse(p["src"]).body[0]
     if p["kind"] == "function":
@@ -707,12 +749,48 @@ def oracle(rng, tier):
         if rq:
             idx.append((i, len(reqs), len(rq)))
             reqs.extend(rq)
-    outs = run_model(reqs)
+    # class attributes: every failed clause of a point is classified on its own (coq/model/C07Spec2.v)
+    attr_fs, areqs, aidx = {}, [], []
+    for i, p in enumerate(pts):
+        if p["kind"] == "classattrs":
+            fs, why = class_attrs_findings(p)
+            attr_fs[i] = (fs, why)
+            if fs:
+                aidx.append((i, len(reqs) + len(areqs), len(fs)))
+                areqs.extend(attrs_class_request(p, f) for f in fs)
+    outs = run_model(reqs + areqs)
     info = {}
     for i, start, k in idx:
         info[i] = outs[start:start + k]
+    attr_cls = {}
+    for i, start, k in aidx:
+        attr_cls[i] = [None if c == "none" else unhx(c[1]) for c in (loads(o) for o in outs[start:start + k])]
     failures, hist, seen, disagree, judged = [], collections.Counter(), set(), [], {}
     for i, p in enumerate(pts):
+        if p["kind"] == "classattrs":
+            fs, why = attr_fs[i]
+            if fs is None:
+                hist["skipped:" + why.split(":")[0]] += 1
+                continue
+            what, clss = "; ".join(f["what"] for f in fs), attr_cls.get(i, [])
+            unclassified = [f for f, c in zip(fs, clss) if c is None]
+            cls = None if unclassified or not fs else clss[0]
+            hist["classattrs:" + ("holds" if not fs else "fails") + ":" + (
+                "in-guard" if not fs else "unclassified-clause" if unclassified else "+".join(sorted(set(clss))))] += 1
+            for t in p["tags"]:
+                if t.startswith(("shared-doc", "attr-pattern:", "class-doc:")) or t in (
+                        "attr-rebound", "annotation-only", "ann-nonscalar", "tuple-target"):
+                    hist["stratum:" + t] += 1
+            judged[i] = (not fs, what, cls)
+            if not fs and len(p["tags"]) >= 2:
+                seen.add(p["src"])
+            # one record per unclassified clause (at most three), one per known class met at the point
+            for f in unclassified[:3]:
+                failures.append({"case": {"kind": p["kind"], "src": p["src"]}, "what": f["what"], "class": None})
+            for c in sorted(set(c for c in clss if c is not None)):
+                f = next(f for f, c2 in zip(fs, clss) if c2 == c)
+                failures.append({"case": {"kind": p["kind"], "src": p["src"]}, "what": f["what"], "class": c})
+            continue
         ok, what = impl_holds(p)
         if ok is None:
             hist["skipped:" + what.split(":")[0]] += 1
@@ -784,8 +862,10 @@ def oracle(rng, tier):
     return {
         "evaluations": len(pts) + env_evals,
         "distinct_nontrivial": len(seen),
-        "rule": "classes whose body mixes annotated and plain attributes (alternating, partly documented, with and without "
-                "__init__, attributes bound twice) judged against vars(cls) / __annotations__; groups of 2-4 functions / methods / "
+        "rule": "classes whose body mixes annotated and plain attributes (alternating, partly documented - in or out of body order -, with and without "
+                "__init__, attributes bound twice; a few annotated attributes with a display / call / attribute / operator value, a few "
+                "bodies with a tuple-target assignment) judged against vars(cls) / __annotations__ at full strength (names, Python's order, "
+                "values, annotations, prose), every failed clause classified on its own; groups of 2-4 functions / methods / "
                 "classes sharing one docstring text with different signatures inside the one-process batch; "
                 "every judged point is judged again in child interpreters started with -O, -OO (flag or PYTHONOPTIMIZE) "
                 "and other PYTHONHASHSEED values; the whole batch (including definitions whose damaged docstring is rejected) "
